@@ -4,7 +4,8 @@
    for every identity-hash function [idhash] (collisions included) and every family layout;
    executions that unwind (panic) are outside (checks/notes/C06.txt). *)
 From Salsa Require Import Base.
-From Salsa.Structs Require Import Model Machine ProofsStep Theorems Examples.
+From Salsa.Structs Require Import Model Dsl Machine ProofsStep Theorems Examples Guard Sim SimExamples
+     SSem SInv SRun STop SAdeq SDsl S1Examples.
 
 (* C06_distinct: at any time the ids held by running executions and stored memos are the
    current ids of live slots; ids held by different holders have different slot indices, hence
@@ -136,3 +137,128 @@ Example C06_nonvacuous_cascade :
   | None => False
   end.
 Proof. exact hist2_cascade. Qed.
+
+(* C06_model_invariant: the EXECUTABLE model (Structs/Model.v: run_ops = the API over fetch /
+   execute / run_body), not only the event machine.  For every program whose `specify` nodes name
+   struct-keyed families (bwf; the Rust type system), every identity hash, every history that is
+   handle-safe and does not unwind — the monitored run (Structs/Guard.v: every fetch /
+   maybe_changed_after on a struct key checks that the key is the current id of a live slot;
+   input keys have generation 0) answers every Get — after EVERY operation (every prefix os1):
+   the run of the real model equals the monitored run, and the ids held by stored memos are
+   current ids of live slots, different holders hold different slots, no holder lists a slot
+   twice.  (Between operations no execution is running: F = [].) *)
+Theorem C06_model_invariant :
+  forall (prog : qk -> body) (skind : N -> bool) (sfams : list N) (idhash : val -> N),
+  (forall fam, In fam sfams -> skind fam = true) ->
+  (forall q, bwf skind (prog q)) ->
+  forall fuel iv idur os,
+  handle_safe prog skind sfams idhash fuel (init iv idur) os = true ->
+  forall os1 os2, os = os1 ++ os2 ->
+  let s := fst (run_ops prog skind sfams idhash fuel (init iv idur) os1) in
+  (forall o h, owns skind s [] o h -> live s h) /\
+  (forall o1 o2 h1 h2, owns skind s [] o1 h1 -> owns skind s [] o2 h2 -> o1 <> o2 ->
+     fst h1 <> fst h2 /\ h1 <> h2) /\
+  (forall o ids, owner_ids skind s [] o ids -> NoDup (map fst ids) /\ NoDup ids).
+Proof. exact model_distinct_every_op. Qed.
+Check C06_model_invariant :
+  forall (prog : qk -> body) (skind : N -> bool) (sfams : list N) (idhash : val -> N),
+  (forall fam, In fam sfams -> skind fam = true) ->
+  (forall q, bwf skind (prog q)) ->
+  forall fuel iv idur os,
+  handle_safe prog skind sfams idhash fuel (init iv idur) os = true ->
+  forall os1 os2, os = os1 ++ os2 ->
+  let s := fst (run_ops prog skind sfams idhash fuel (init iv idur) os1) in
+  (forall o h, owns skind s [] o h -> live s h) /\
+  (forall o1 o2 h1 h2, owns skind s [] o1 h1 -> owns skind s [] o2 h2 -> o1 <> o2 ->
+     fst h1 <> fst h2 /\ h1 <> h2) /\
+  (forall o ids, owner_ids skind s [] o ids -> NoDup (map fst ids) /\ NoDup ids).
+Print Assumptions C06_model_invariant.
+
+(* Non-vacuity: a DSL program (well-formed) and a handle-safe history with conditional creation,
+   deletion cascading into a memo keyed by the struct, re-creation in the reused slot (0,1) and a
+   dependent that re-executes. *)
+Example C06_model_nonvacuous :
+  (forall q, bwf skind5 (prog_of rc_nk skind5 rc_nodes q)) /\
+  handle_safe (prog_of rc_nk skind5 rc_nodes) skind5 sfams5 rc_idhash 40%nat
+              (init (lookup3 rc_ival) (lookup3 rc_idur)) rc_ops = true /\
+  snd (run_case rc_nodes rc_ival rc_idur rc_ops rc_nk rc_idhash) =
+  [SOk (7, []); SOk (1, []); SOk (0, []); SOk (99, []); SOk (0, []);
+   SOk (0, []); SOk (0, []); SOk (11, []); SOk (0, [(0, 1)]); SOk (1, [])].
+Proof. exact (conj rc_bwf (conj rc_handle_safe rc_outputs)). Qed.
+
+
+(* C06_from_scratch_partial (stage S1 of "C01 stage 2" for tracked structs): the EXECUTABLE model
+   answers every Get of every history with the from-scratch value.
+   From-scratch value (Structs/SSem.v): a `world` gives the inputs, the cells, a struct store by
+   handle and an allocator (creating query, identity) -> handle; `Ew w q` evaluates the body of q
+   in w with no memo at all, callees evaluated recursively, a creation answering the allocator's
+   handle, a tracked-field read answering the store.  A world is consistent for q (`wcons`) when
+   every struct created in the call closure of q holds, in the store, the fields its creator
+   gives it.  `gets_scratch` (Structs/SAdeq.v) says, for every `OGet q` of the history, with s'
+   the state after it: the answer is `SOk v`; v = Ew w q for EVERY world w consistent for q that
+   has the inputs and cells of s' and the allocator of s' (the handles listed by the memos of
+   s'); the world read off s' is such a world (so the statement is not vacuous and v is unique:
+   SAdeq.scratch_unique); every handle in v is the current id of a live slot.
+   Covered: conditional creation, in-place update of both tracked fields with per-field revisions
+   and backdating, deletion of structs not re-created, slot reuse with generation bump, dependents
+   reading fields / identity fields through handles returned by other queries, early cutoff
+   through backdated memos, untracked reads, `entries`.
+   Hypotheses = the stage: no struct-keyed query family (skind = false: no memo lives in a slot,
+   call keys have generation 0), no `specify`, acyclic calls (rank), bodies use only handles they
+   created or were returned (no_forge), a called body starts with a read, all input durabilities
+   LOW (ops: OSet with durability None or LOW, OGet, OEntries), no Get of the history unwinds
+   (okout), fewer than 2^31 operations (generations stay below 2^32 - 1).
+   Not covered (full statement below): struct-keyed functions and their cascades, durabilities
+   above LOW, OSetCell / OSynth, independence of the value from the allocator's naming of handles
+   (needs parametricity of bodies in handles). *)
+Theorem C06_from_scratch_partial :
+  forall (prog : qk -> body) (skind : N -> bool) (idhash : val -> N) (rank : qk -> nat) (NF : nat),
+  calls_below prog rank -> (forall q, (rank q < NF)%nat) ->
+  no_forge idhash prog -> (forall q, nospec (prog q)) -> (forall f, skind f = false) ->
+  (forall q d, calls (prog q) d -> gk d) -> (forall q d, calls (prog q) d -> first_read (prog d)) ->
+  forall fuel iv os,
+  Forall (s1_op prog) os -> 1 + 2 * N.of_nat (length os) < GMAX ->
+  Forall2 okout os (snd (run_ops prog skind [] idhash fuel (init iv (fun _ => 0)) os)) ->
+  gets_scratch prog skind idhash NF fuel (init iv (fun _ => 0)) os.
+Proof. exact from_scratch_S1_init. Qed.
+Check C06_from_scratch_partial :
+  forall (prog : qk -> body) (skind : N -> bool) (idhash : val -> N) (rank : qk -> nat) (NF : nat),
+  calls_below prog rank -> (forall q, (rank q < NF)%nat) ->
+  no_forge idhash prog -> (forall q, nospec (prog q)) -> (forall f, skind f = false) ->
+  (forall q d, calls (prog q) d -> gk d) -> (forall q d, calls (prog q) d -> first_read (prog d)) ->
+  forall fuel iv os,
+  Forall (s1_op prog) os -> 1 + 2 * N.of_nat (length os) < GMAX ->
+  Forall2 okout os (snd (run_ops prog skind [] idhash fuel (init iv (fun _ => 0)) os)) ->
+  gets_scratch prog skind idhash NF fuel (init iv (fun _ => 0)) os.
+Print Assumptions C06_from_scratch_partial.
+
+(* The full statement, kept visible; NOT proved: any struct kinds (struct-keyed families, whose
+   bodies may use their own key), any durabilities, every operation of a handle-safe history. *)
+Definition C06_from_scratch_full_statement : Prop :=
+  forall (prog : qk -> body) (skind : N -> bool) (idhash : val -> N) (rank : qk -> nat) (NF : nat),
+  calls_below prog rank -> (forall q, (rank q < NF)%nat) ->
+  (forall e q, prov idhash e (prog q) [] (if skind (fst q) then [snd q] else [])) ->
+  (forall q, nospec (prog q)) ->
+  forall fuel iv idur os,
+  handle_safe prog skind [] idhash fuel (init iv idur) os = true ->
+  1 + 2 * N.of_nat (length os) < GMAX ->
+  gets_scratch prog skind idhash NF fuel (init iv idur) os.
+
+(* Non-vacuity: mk = if in0 then new(id in1; f0 := in2, f1 := 0), rd = f0 + f1 of the struct mk
+   returns (99 if none).  History: rd = 3 with the struct (0,0); in0 := 0: struct deleted, rd
+   re-executes to 99; in2 := 5, in0 := 1: struct re-created in the reused slot as (0,1), rd
+   re-executes to 5; mk returns [(0,1)]; one struct. All hypotheses hold. *)
+Example C06_from_scratch_nonvacuous :
+  (calls_below (prog_of r1_nk skind0 r1_nodes) (fun q => r1_frank (fst q)) /\
+   (forall q : qk, (r1_frank (fst q) < r1_NF)%nat) /\
+   no_forge r1_idhash (prog_of r1_nk skind0 r1_nodes) /\
+   (forall q, nospec (prog_of r1_nk skind0 r1_nodes q)) /\ (forall f, skind0 f = false) /\
+   (forall q d, calls (prog_of r1_nk skind0 r1_nodes q) d -> gk d) /\
+   (forall q d, calls (prog_of r1_nk skind0 r1_nodes q) d -> first_read (prog_of r1_nk skind0 r1_nodes d)) /\
+   Forall (s1_op (prog_of r1_nk skind0 r1_nodes)) r1_ops /\ 1 + 2 * N.of_nat (length r1_ops) < GMAX /\
+   Forall2 okout r1_ops (snd (run_ops (prog_of r1_nk skind0 r1_nodes) skind0 [] r1_idhash 40%nat
+                                      (init (lookup3 r1_ival) (fun _ => 0)) r1_ops))) /\
+  snd (run_ops (prog_of r1_nk skind0 r1_nodes) skind0 [] r1_idhash 40%nat (init (lookup3 r1_ival) (fun _ => 0)) r1_ops) =
+  [SOk (3, []); SOk (1, []); SOk (0, []); SOk (99, []); SOk (0, []);
+   SOk (0, []); SOk (0, []); SOk (5, []); SOk (0, [(0, 1)]); SOk (1, [])].
+Proof. exact (conj r1_hyps r1_outputs). Qed.
